@@ -336,6 +336,19 @@ def range_filters(src, fn_name, assigned=()):
     return out
 
 
+def early_errors(src, fn_name):
+    """the conditions of `if <cond> { return Err(` inside fn `fn_name`, in source order -> [cond_ast]"""
+    body = find_fn(src, fn_name)
+    return [parse_expr(m.group(1)) for m in re.finditer(r"\bif\s+([^{};]+?)\s*\{\s*return\s+Err\(", body)]
+
+
+def disj(conds):
+    e = ("bool", "false")
+    for c in conds:
+        e = c if e == ("bool", "false") else ("bin", "||", e, c)
+    return e
+
+
 def lean_def(name, params, ret, e):
     ps = " ".join(f"({p + '_' if p in RESERVED else p} : Nat)" for p in params)
     return f"def {name} {ps} : {ret} :=\n  {lean(e)}"
